@@ -38,7 +38,17 @@ def build_harness(ctx_scratch: Path, backend: str):
     else:
         drv = VERIF / "cxx" / "c19_cvode_driver.cpp"
     srcs = sorted(str(p.relative_to(d)) for p in (d / "src").glob("*.cpp"))
-    cmd = [GXX, "-std=c++17", "-O2", "-w", "-include", str(VERIF / "cxx" / "verif_io.h"), "-I", str(SHIM), "-I", "include", *srcs, str(drv), "-o", "drv", "-lm"]
+    extra = []
+    if backend == "cusparse":
+        # host-compilable .cu units (no kernel launches): constants, physics, renorm
+        for name in ("naunet_constants", "naunet_physics", "naunet_renorm"):
+            cu = d / "src" / f"{name}.cu"
+            if cu.exists():
+                # CUDA provides min/max as built-ins
+                (d / "src" / f"{name}_cu.cpp").write_text("#include <algorithm>\nusing std::min; using std::max;\n" + cu.read_text())
+                srcs.append(f"src/{name}_cu.cpp")
+        extra = ["-D__host__=", "-D__device__=", "-D__constant__=const", "-D__global__="]
+    cmd = [GXX, "-std=c++17", "-O2", "-w", *extra, "-include", str(VERIF / "cxx" / "verif_io.h"), "-I", str(SHIM), "-I", "include", *srcs, str(drv), "-o", "drv", "-lm"]
     rc, so, se = run(cmd, cwd=str(d), timeout=600)
     if rc != 0:
         first = "\n".join(ln for ln in se.splitlines() if "error" in ln)[:1500]
@@ -134,6 +144,22 @@ def run(ctx):
                     samples.append({"backend": backend, "pass_argv": argv[:8], "runs": res["runs"]})
         finally:
             shutil.rmtree(d, ignore_errors=True)
+    # cuSPARSE variant of Solve (CUDA runtime emulated on the host): there is no recovery ladder, so the
+    # alphabet is just the outcome of the single CVode call
+    d, drv, err = build_harness(ctx.scratch, "cusparse")
+    if drv is None:
+        raise HarnessError(f"C19 cusparse harness does not compile: {err}")
+    compiled.append("cusparse")
+    try:
+        flags = [-1, -2, -3, -4, -5, -6, -7, -8]
+        argv0 = [3, 0, csv(flags), csv([0.0, 0.5]), csv([0, 99]), 0, repr(3.15e7), "-", cap]
+        argv, res = run_drv((drv, argv0))
+        total += res["runs"]
+        per_pass["cusparse:single-call"] = {"runs": res["runs"], "success": res["success"], "fail": res["fail"], "capped": res["capped"], "deepest_level": res["deepest_level"]}
+        if res["violations"]:
+            ctx.violation(f"C19:cusparse:{classify(res['first_violation'])}", f"cusparse: choice sequence {res['choices']}: {res['first_violation']} ({res['violations']} of {res['runs']} executions)", {"backend": "cusparse", "argv": argv0[:8], "choices": res["choices"]})
+    finally:
+        shutil.rmtree(d, ignore_errors=True)
     # odeint
     od = run_odeint(ctx)
     total += od["runs"]
@@ -143,7 +169,7 @@ def run(ctx):
         "SUCCESS => |y - y0 - dt| <= 1e-9*dt (the ladder recomputes dt as pow(10, log10(dt))) and the last answer was a success; FAIL <=> last answer a failure/failed re-init, with the 'y[0] =' line of the initial state in the error record; no CVode call after an unrecoverable flag; tout strictly increasing inside a level",
         "flags: recoverable -1..-4, reset -6, every other negative flag unrecoverable; failure positions are restricted per pass (mode 1: steps {1,2,middle,last-1,last} of every level; mode 2: every step of one level, step 1 elsewhere; mode 3: step 1 of every level with the full flag alphabet); each pass is exhaustive for its alphabet unless 'capped' is reported",
         "the error record's fopen is routed to an in-memory stream by a forced include (harness build flag); the generated text is not edited",
-        "cuSPARSE Solve is not covered (no CUDA runtime shim); reading shows it ignores cvflag - recorded in DESIGN.md, not judged here",
+        "cuSPARSE Solve: the CUDA runtime / cuSPARSE / cuSOLVER names are emulated on the host (device memory = heap), Fex/Jac/InitJac kernels are link-time stubs; only the Solve control flow is exercised",
     ]
     capped = [k for k, v in per_pass.items() if v["capped"]]
     return {
